@@ -122,7 +122,8 @@ def mk(kind, n):
     elif kind == "str":
         ints = [ord(ch) for ch in ALPHA[:n]]
     else:
-        ints = [65 + k for k in range(n)]
+        # byte containers: include bytes with the high bit set, 0xFF (the -1 error sentinel if read as signed char) and NUL
+        ints = [255, 128, 65, 0, 200, 127, 129, 254, 66][:n]
     if kind == "list":
         src = repr(ints)
     elif kind == "tuple":
